@@ -1,6 +1,8 @@
 /* C13: log line formatting stays inside the line limit and follows the documented directives */
 #include "vp.h"
 #include <qb/qblog.h>
+#include <qb/qbrb.h>
+#include <fcntl.h>
 #include <qb/qbdefs.h>
 #include <errno.h>
 #include <stdio.h>
@@ -11,6 +13,8 @@
 #include <unistd.h>
 
 static int T = -1, nitems_max, thin, e2e, cur_limit;
+static int FT = -1, devnull = -1;
+static void check_blackbox_last(const char *want);
 static const int LIMITS[] = { 512, 32, 4, 3, 2, 1, 0, -1, 513, 4096, 4097 };
 #define NLIM 11
 static const char LETTERS[] = "nflptTbgNPHq%";       /* q: unknown, %: literal-looking, plus end-of-string below */
@@ -177,11 +181,50 @@ static void run(void)
 		qb_log_format_set(T, fmt);
 		qb_log_from_external_source("my_function", "dir/my_file.c", "%s", LOG_INFO, 4242, 0, msg);
 		qb_log_from_external_source("my_function", "dir/my_file.c", msg[0] ? "%.0s" : "", LOG_INFO, 4243, 0, "unused");
+		/* a call with several arguments that goes to a text target in a low slot (stderr), to the blackbox and to the custom
+		   target at once: every one of them has to see the same arguments */
+		{ static int once; if (once) goto skip_multi; once = 1; }      /* independent of the target format: once per process (an isolated replay does it too) */
+		{
+			int save = dup(2);
+			dup2(devnull, 2);
+			qb_log_from_external_source("my_function", "dir/my_file.c", "v %d %s %d", LOG_NOTICE, 4244, 0, 11, "str", 33);
+			dup2(save, 2); close(save);
+			check_blackbox_last("v 11 str 33");
+		}
+skip_multi:;
 		vp_state(vp_hash(fmt, strlen(fmt), (uint64_t)L * 7 + (uint64_t)mclass + 1000));
 	}
 }
 
-static int FT = -1;
+/* the newest record of the blackbox, read the way the dump printer reads it */
+static void check_blackbox_last(const char *want)
+{
+	static char chunk[2048 + 64], text[1024], last[1024], path[128];
+	unsigned char hdr[20];
+	qb_ringbuffer_t *rb;
+	ssize_t r; int fd, n = 0;
+	snprintf(path, sizeof path, "/dev/shm/vp13-%d.dump", vp_worker_id());
+	unlink(path);
+	if (qb_log_blackbox_write_to_file(path) < 0) vp_fail("qb_log_blackbox_write_to_file failed");
+	fd = open(path, O_RDONLY);
+	if (fd < 0 || read(fd, hdr, sizeof hdr) != (ssize_t)sizeof hdr) vp_fail("the blackbox dump cannot be read");
+	rb = qb_rb_create_from_file(fd, 0);
+	close(fd); unlink(path);
+	if (!rb) vp_fail("the blackbox dump cannot be loaded");
+	last[0] = 0;
+	while ((r = qb_rb_chunk_read(rb, chunk, 2048, 0)) > 0) {
+		uint32_t fn_size; char *p = chunk + 9;
+		memset(chunk + r, 0, 64);
+		memcpy(&fn_size, p, 4); p += 4;
+		if (fn_size == 0 || (ssize_t)fn_size + 33 > r) vp_fail("blackbox record with function-name size %u", fn_size);
+		p += fn_size + sizeof(struct timespec) + 4;
+		qb_vsnprintf_deserialize(text, sizeof text, p);
+		snprintf(last, sizeof last, "%s", text); n++;
+	}
+	qb_rb_close(rb);
+	if (!n) vp_fail("the blackbox holds no record after a log call");
+	if (strcmp(last, want)) vp_fail("the blackbox recorded '%.60s' for a call whose text is '%s' (the stderr target formatted the same call first)", last, want);
+}
 static void setup(void)
 {
 	gethostname(hostname_buf, sizeof hostname_buf);
@@ -193,6 +236,12 @@ static void setup(void)
 	qb_log_filter_ctl(T, QB_LOG_FILTER_ADD, QB_LOG_FILTER_FILE, "*", LOG_TRACE);
 	if (e2e) {
 		qb_log_ctl(T, QB_LOG_CONF_ENABLED, QB_TRUE);
+		devnull = open("/dev/null", O_WRONLY);
+		qb_log_filter_ctl(QB_LOG_STDERR, QB_LOG_FILTER_ADD, QB_LOG_FILTER_FILE, "*", LOG_NOTICE);
+		qb_log_ctl(QB_LOG_STDERR, QB_LOG_CONF_ENABLED, QB_TRUE);
+		qb_log_ctl(QB_LOG_BLACKBOX, QB_LOG_CONF_SIZE, 4096);
+		qb_log_filter_ctl(QB_LOG_BLACKBOX, QB_LOG_FILTER_ADD, QB_LOG_FILTER_FILE, "*", LOG_NOTICE);
+		qb_log_ctl(QB_LOG_BLACKBOX, QB_LOG_CONF_ENABLED, QB_TRUE);
 		FT = qb_log_file_open("/dev/null");
 		if (FT >= 0) {
 			qb_log_filter_ctl(FT, QB_LOG_FILTER_ADD, QB_LOG_FILTER_FILE, "*", LOG_TRACE);
@@ -212,7 +261,7 @@ int main(int argc, char **argv)
 {
 	static struct vp_harness h = {
 		.property = "C13", .name = "c13_log_format", .level = "exploration",
-		.run = run, .init = init, .setup = setup, .batch = 20000,
+		.run = run, .init = init, .setup = setup, .batch = 20000, .private_shm = 1,
 		.rule = "grammar enumeration: target formats of <= max_items items from {literal, 300-char literal, % [-] [width in none,0,1,5,600] "
 			"letter in n f l p t T b g N P H, unknown q, %, end of string} x max_line_length in {512,32,4,3,2,1,0,-1,513,4096,4097} (whatever "
 			"qb_log_ctl accepts) x ellipsis x message length in {0,1,L-2,L-1,L,L+1,5000} x trailing newline; qb_log_format_set + "
